@@ -30,6 +30,16 @@ var repoDir = "/repo"
 
 var replayTemplates = []*replayTemplate{
 	{
+		name: "ws_handler_after_close.go.tmpl",
+		match: func(o *Obligation) bool {
+			return o.Kind == "site" && o.Func == "(*transport/ws.listener).handler" && strings.Contains(o.Note, "!l.closed")
+		},
+		run: func(g *Gen, o *Obligation, model map[string]string) (bool, string) {
+			// fixed history: Listen, Close, then an upgraded connection is handed to handler
+			return runReplay("transport/ws", "ws_handler_after_close.go.tmpl", map[string]string{}, "TestZZReplayWsHandlerAfterClose")
+		},
+	},
+	{
 		name: "ws_listener_listen_race.go.tmpl",
 		match: func(o *Obligation) bool {
 			if !(o.Kind == "guard.read" || o.Kind == "guard.write") || !strings.HasPrefix(o.Func, "(*transport/ws.listener).") {
